@@ -16,7 +16,7 @@ Line protocol for C03 (heap model).  All payloads are blank-separated `key=value
 * `c03.maplist ip=<0|1> swap=<0|1> k=<members> [dup=<0|1>] init=… body=…` →
   `samelist=<0|1> ext=<0|1> recv=<m0.m1…> res=<…> in=<abs|abs…> out=<abs|…>`  (members as `s<i>` = the i-th input
   object, `f` = a fresh object)
-* `c03.listop op=<add|sub|and|or|orl|orfix> k=<members> present=<0|1> extra=<m>` →
+* `c03.listop op=<add|sub|and|or|orl|orprefix> k=<members> present=<0|1> extra=<m>` →
   `newlist=<0|1> recv=<len of the receiver afterwards> res=<len of the result> ext=<0|1>`
 * `c03.trace ip=<0|1> evs=<g|w|wi|d|b , …>` → `ok=<0|1> nwbg=<0|1> frame=<0|1> same=<0|1>`
 -/
@@ -164,7 +164,7 @@ def run (cmd rest : String) : Option String :=
       | "sub" => some (listFilter s l fun y => y != o)
       | "and" => some (listFilter s l fun y => y == o)
       | "or" => some (listOr s l o present)
-      | "orfix" => some (listOrFixed s l o present)
+      | "orprefix" => some (listOrPreFix s l o present)
       | "orl" => some (listOrList s l ((List.range extra).map (· + k)))
       | _ => none
     pure s!"newlist={b01 (r.2 != l)} recv={(r.1.lst l).length} res={(r.1.lst r.2).length} ext={b01 (extendsB s r.1)}"
